@@ -275,6 +275,10 @@ def make_replay(prop, job, jr, ob, work, replay_dir):
             flags += ['--unwind', str(job['unwind'])]
         rc, out, err, secs = sh(['cbmc', gb] + flags + ['--property', pname, '--trace'], timeout=600)
         trace_txt = out
+        # cbmc prints one trace per failing property (reachable no-body callees fail too): keep the one asked for
+        seg = re.search(r'^Trace for %s:\n(.*?)(?=^Trace for |\Z)' % re.escape(pname), out, re.M | re.S)
+        if seg:
+            trace_txt = seg.group(0)
     else:
         trace_txt = '(result taken from the solver-result cache; no binary at hand -- rerun with VERIF_NOCACHE=1 for a trace)'
     wit = {}
